@@ -27,6 +27,8 @@ func runC01(c *Ctx) {
 		ruleElementWidth(c, p, "C01.width")
 		ruleEndian(c, p, "C01.endian")
 		ruleClones(c, p, "C01.clones")
+		ruleReaderSource(c, p, "C01.source")
+		ruleReadFull(c, p, "C01.readfull")
 	}
 	p := c.Prog(core.CfgDefault)
 	if p == nil {
